@@ -6,6 +6,7 @@ import (
 	"math/rand"
 	"regexp"
 	"sort"
+	"strings"
 
 	"go.opentelemetry.io/collector/consumer"
 	"go.opentelemetry.io/collector/consumer/xconsumer"
@@ -138,9 +139,12 @@ func (p Payload) AppendTrail(entry string) {
 
 // Mutate applies the unique mutation of the named mutator. It works on any payload shape, also on
 // item-less and completely empty ones: it makes sure a resource and a scope exist (appending them when
-// missing), puts a marker attribute on the first resource, changes the name of that resource's last
-// scope (and puts a marker attribute on it), changes the first metric's name / the first item, and
-// appends one leaf item carrying the marker.
+// missing), OVERWRITES every existing primitive attribute value of the first resource, of its last
+// scope and of that scope's first item with a value of the same type (also a string log body, number
+// data point values and profile attribute-table values; strings get the marker appended), puts a
+// marker attribute on the first resource, changes the name of that resource's last scope (and puts a
+// marker attribute on it), changes the first metric's name / the first item, and appends one leaf
+// item carrying the marker.
 func (p Payload) Mutate(name string) {
 	mk := MarkPrefix + name + ";"
 	switch p.Signal {
@@ -149,15 +153,20 @@ func (p Payload) Mutate(name string) {
 			p.l.ResourceLogs().AppendEmpty()
 		}
 		rl := p.l.ResourceLogs().At(0)
+		overwriteAttrs(rl.Resource().Attributes(), mk)
 		rl.Resource().Attributes().PutStr(mk, "x")
 		if rl.ScopeLogs().Len() == 0 {
 			rl.ScopeLogs().AppendEmpty()
 		}
 		sl := rl.ScopeLogs().At(rl.ScopeLogs().Len() - 1)
 		sl.Scope().SetName(sl.Scope().Name() + mk)
+		overwriteAttrs(sl.Scope().Attributes(), mk)
 		sl.Scope().Attributes().PutStr(mk, "x")
 		if sl.LogRecords().Len() > 0 {
-			sl.LogRecords().At(0).Attributes().PutStr(mk, "x")
+			lr := sl.LogRecords().At(0)
+			overwriteValue(lr.Body(), mk)
+			overwriteAttrs(lr.Attributes(), mk)
+			lr.Attributes().PutStr(mk, "x")
 		}
 		sl.LogRecords().AppendEmpty().Body().SetStr(mk)
 	case Traces:
@@ -165,15 +174,20 @@ func (p Payload) Mutate(name string) {
 			p.t.ResourceSpans().AppendEmpty()
 		}
 		rs := p.t.ResourceSpans().At(0)
+		overwriteAttrs(rs.Resource().Attributes(), mk)
 		rs.Resource().Attributes().PutStr(mk, "x")
 		if rs.ScopeSpans().Len() == 0 {
 			rs.ScopeSpans().AppendEmpty()
 		}
 		ss := rs.ScopeSpans().At(rs.ScopeSpans().Len() - 1)
 		ss.Scope().SetName(ss.Scope().Name() + mk)
+		overwriteAttrs(ss.Scope().Attributes(), mk)
 		ss.Scope().Attributes().PutStr(mk, "x")
 		if ss.Spans().Len() > 0 {
-			ss.Spans().At(0).Events().AppendEmpty().SetName(mk)
+			s0 := ss.Spans().At(0)
+			overwriteAttrs(s0.Attributes(), mk)
+			s0.SetName(s0.Name() + mk)
+			s0.Events().AppendEmpty().SetName(mk)
 		}
 		ss.Spans().AppendEmpty().SetName(mk)
 	case Metrics:
@@ -181,17 +195,38 @@ func (p Payload) Mutate(name string) {
 			p.m.ResourceMetrics().AppendEmpty()
 		}
 		rm := p.m.ResourceMetrics().At(0)
+		overwriteAttrs(rm.Resource().Attributes(), mk)
 		rm.Resource().Attributes().PutStr(mk, "x")
 		if rm.ScopeMetrics().Len() == 0 {
 			rm.ScopeMetrics().AppendEmpty()
 		}
 		sm := rm.ScopeMetrics().At(rm.ScopeMetrics().Len() - 1)
 		sm.Scope().SetName(sm.Scope().Name() + mk)
+		overwriteAttrs(sm.Scope().Attributes(), mk)
 		sm.Scope().Attributes().PutStr(mk, "x")
 		if sm.Metrics().Len() > 0 {
 			m0 := sm.Metrics().At(0)
 			m0.SetName(m0.Name() + mk)
 			m0.SetDescription(mk)
+			var dps pmetric.NumberDataPointSlice
+			switch m0.Type() {
+			case pmetric.MetricTypeGauge:
+				dps = m0.Gauge().DataPoints()
+			case pmetric.MetricTypeSum:
+				dps = m0.Sum().DataPoints()
+			default:
+				dps = pmetric.NewNumberDataPointSlice()
+			}
+			for i := 0; i < dps.Len(); i++ { // same-typed overwrite of the point value and its attributes
+				dp := dps.At(i)
+				switch dp.ValueType() {
+				case pmetric.NumberDataPointValueTypeInt:
+					dp.SetIntValue(dp.IntValue() + 1)
+				case pmetric.NumberDataPointValueTypeDouble:
+					dp.SetDoubleValue(dp.DoubleValue() + 0.5)
+				}
+				overwriteAttrs(dp.Attributes(), mk)
+			}
 		}
 		nm := sm.Metrics().AppendEmpty()
 		nm.SetName(mk)
@@ -201,15 +236,20 @@ func (p Payload) Mutate(name string) {
 			p.p.ResourceProfiles().AppendEmpty()
 		}
 		rp := p.p.ResourceProfiles().At(0)
+		overwriteAttrs(rp.Resource().Attributes(), mk)
 		rp.Resource().Attributes().PutStr(mk, "x")
 		if rp.ScopeProfiles().Len() == 0 {
 			rp.ScopeProfiles().AppendEmpty()
 		}
 		sp := rp.ScopeProfiles().At(rp.ScopeProfiles().Len() - 1)
 		sp.Scope().SetName(sp.Scope().Name() + mk)
+		overwriteAttrs(sp.Scope().Attributes(), mk)
 		sp.Scope().Attributes().PutStr(mk, "x")
 		if sp.Profiles().Len() > 0 {
 			p0 := sp.Profiles().At(0)
+			for i := 0; i < p0.AttributeTable().Len(); i++ {
+				overwriteValue(p0.AttributeTable().At(i).Value(), mk)
+			}
 			p0.SetOriginalPayloadFormat(p0.OriginalPayloadFormat() + mk)
 			p0.StringTable().Append(mk)
 		}
@@ -302,14 +342,19 @@ func (p Payload) Items() int {
 	}
 }
 
+// fillAttrs always puts one primitive of every kind (string, int, double, bool) — the values a
+// mutator overwrites in place with a value of the same type — plus, with a PRNG, nested or bytes values.
 func fillAttrs(a pcommon.Map, rng *rand.Rand, id string) {
 	a.PutStr("id", id)
+	a.PutInt("n", int64(len(id)))
+	a.PutDouble("d", 1.5)
+	a.PutBool("ok", true)
 	if rng == nil {
 		return
 	}
 	switch rng.Intn(4) {
 	case 0:
-		a.PutInt("n", rng.Int63n(1000))
+		a.PutInt("n2", rng.Int63n(1000))
 	case 1:
 		m := a.PutEmptyMap("nested")
 		m.PutStr("k", id)
@@ -317,6 +362,37 @@ func fillAttrs(a pcommon.Map, rng *rand.Rand, id string) {
 	case 2:
 		a.PutEmptyBytes("b").FromRaw([]byte(id))
 	}
+}
+
+// overwriteValue replaces a primitive value by another value of the SAME type (string, int, double,
+// bool), descending into maps and slices: the kind of change a processor makes when it rewrites an
+// existing attribute. Keys starting with "kit." (tag, trail, markers) are left alone.
+func overwriteValue(v pcommon.Value, mk string) {
+	switch v.Type() {
+	case pcommon.ValueTypeStr:
+		v.SetStr(v.Str() + mk)
+	case pcommon.ValueTypeInt:
+		v.SetInt(v.Int() + 1)
+	case pcommon.ValueTypeDouble:
+		v.SetDouble(v.Double() + 0.5)
+	case pcommon.ValueTypeBool:
+		v.SetBool(!v.Bool())
+	case pcommon.ValueTypeMap:
+		overwriteAttrs(v.Map(), mk)
+	case pcommon.ValueTypeSlice:
+		for i := 0; i < v.Slice().Len(); i++ {
+			overwriteValue(v.Slice().At(i), mk)
+		}
+	}
+}
+
+func overwriteAttrs(m pcommon.Map, mk string) {
+	m.Range(func(k string, v pcommon.Value) bool {
+		if !strings.HasPrefix(k, "kit.") {
+			overwriteValue(v, mk)
+		}
+		return true
+	})
 }
 
 // NewPayload builds a payload of the signal carrying msg. With a nil rng it is minimal (one resource,
@@ -345,6 +421,7 @@ func NewPayload(sig Signal, msg Msg, rng *rand.Rand) Payload {
 			for s, ns := 0, n(2); s < ns; s++ {
 				sl := rl.ScopeLogs().AppendEmpty()
 				sl.Scope().SetName(next())
+				fillAttrs(sl.Scope().Attributes(), rng, next())
 				for i, ni := 0, n(3); i < ni; i++ {
 					lr := sl.LogRecords().AppendEmpty()
 					lr.Body().SetStr(next())
@@ -362,6 +439,7 @@ func NewPayload(sig Signal, msg Msg, rng *rand.Rand) Payload {
 			for s, ns := 0, n(2); s < ns; s++ {
 				ss := rs.ScopeSpans().AppendEmpty()
 				ss.Scope().SetName(next())
+				fillAttrs(ss.Scope().Attributes(), rng, next())
 				for i, ni := 0, n(3); i < ni; i++ {
 					sp := ss.Spans().AppendEmpty()
 					sp.SetName(next())
@@ -383,6 +461,7 @@ func NewPayload(sig Signal, msg Msg, rng *rand.Rand) Payload {
 			for s, ns := 0, n(2); s < ns; s++ {
 				sm := rm.ScopeMetrics().AppendEmpty()
 				sm.Scope().SetName(next())
+				fillAttrs(sm.Scope().Attributes(), rng, next())
 				for i, ni := 0, n(3); i < ni; i++ {
 					m := sm.Metrics().AppendEmpty()
 					m.SetName(next())
@@ -429,6 +508,7 @@ func NewPayload(sig Signal, msg Msg, rng *rand.Rand) Payload {
 			for s, ns := 0, n(2); s < ns; s++ {
 				sp := rp.ScopeProfiles().AppendEmpty()
 				sp.Scope().SetName(next())
+				fillAttrs(sp.Scope().Attributes(), rng, next())
 				for i, ni := 0, n(3); i < ni; i++ {
 					pr := sp.Profiles().AppendEmpty()
 					pr.SetProfileID(pprofile.ProfileID{byte(r + 1), byte(s + 1), byte(i + 1)})
@@ -436,6 +516,9 @@ func NewPayload(sig Signal, msg Msg, rng *rand.Rand) Payload {
 					pr.SetPeriod(int64(i + 1))
 					sa := pr.Sample().AppendEmpty()
 					sa.Value().Append(int64(i), 2)
+					at := pr.AttributeTable().AppendEmpty()
+					at.SetKey("id")
+					at.Value().SetStr(next())
 					if rng != nil && rng.Intn(2) == 0 {
 						pr.LocationTable().AppendEmpty().SetAddress(uint64(i))
 						pr.FunctionTable().AppendEmpty().SetNameStrindex(1)
@@ -628,6 +711,9 @@ func NewShapedPayload(sig Signal, shape string, msg Msg, rng *rand.Rand) Payload
 					pr.SetProfileID(pprofile.ProfileID{byte(r + 1), byte(i + 1), byte(k + 1)})
 					pr.SetOriginalPayloadFormat(next())
 					pr.StringTable().Append("", next())
+					at := pr.AttributeTable().AppendEmpty()
+					at.SetKey("id")
+					at.Value().SetStr(next())
 				}
 			}
 		}
